@@ -79,6 +79,7 @@ type Obligation struct {
 	Text    string // human readable: contract text or instruction
 	SMT     string
 	Pos     string
+	SMTAlt  string // the same goal without the lemma hypotheses of its clause group (a proof of either is a proof)
 	MustSat bool // canaries / covers: expected sat
 }
 
@@ -187,18 +188,30 @@ func (fx *FnCtx) oblige(kind, name, text string, st *State, goal Term, pos token
 	// split top-level conjunctions so that a failure names the conjunct
 	if (kind == "post" || kind == "inv-init" || kind == "inv-pres" || kind == "pre@call") && strings.HasPrefix(goal, "(and ") {
 		if parts := splitSexp(goal[5 : len(goal)-1]); len(parts) > 1 {
+			saved := fx.hyps
 			for i, p := range parts {
 				fx.oblige(kind, fmt.Sprintf("%s.%d", name, i+1), text, st, p, pos, props)
+				// later conjuncts of the same clause may use the earlier ones
+				if !strings.Contains(p, "(forall ") && !strings.Contains(p, "(exists ") && len(p) < 20000 {
+					fx.hyps = append(append([]Term{}, fx.hyps...), p)
+				}
 			}
+			fx.hyps = saved
 			return
 		}
 	}
 	if (kind == "post" || kind == "inv-init" || kind == "inv-pres" || kind == "pre@call") && strings.HasPrefix(goal, "(=> ") {
 		if ps := splitSexp(goal[4 : len(goal)-1]); len(ps) == 2 && strings.HasPrefix(ps[1], "(and ") {
 			if parts := splitSexp(ps[1][5 : len(ps[1])-1]); len(parts) > 1 {
+				saved := fx.hyps
 				for i, p := range parts {
-					fx.oblige(kind, fmt.Sprintf("%s.%d", name, i+1), text, st, "(=> "+ps[0]+" "+p+")", pos, props)
+					g := "(=> " + ps[0] + " " + p + ")"
+					fx.oblige(kind, fmt.Sprintf("%s.%d", name, i+1), text, st, g, pos, props)
+					if !strings.Contains(g, "(forall ") && !strings.Contains(g, "(exists ") && len(g) < 20000 {
+						fx.hyps = append(append([]Term{}, fx.hyps...), g)
+					}
 				}
+				fx.hyps = saved
 				return
 			}
 		}
@@ -218,6 +231,7 @@ func (fx *FnCtx) oblige(kind, name, text string, st *State, goal Term, pos token
 		ob.Pos = fmt.Sprintf("%s:%d", p.Filename, p.Line)
 	}
 	if len(fx.hyps) > 0 && goal != "true" {
+		ob.SMTAlt = fx.s.render(fx.s.mark(), st.guard, goal, fmt.Sprintf("obligation %s (without lemma hypotheses)\nkind %s\n%s\n%s", full, kind, text, ob.Pos), true)
 		goal = "(=> " + and(fx.hyps...) + " " + goal + ")"
 	}
 	ob.SMT = fx.s.render(fx.s.mark(), st.guard, goal, fmt.Sprintf("obligation %s\nkind %s\n%s\n%s", full, kind, text, ob.Pos), true)
